@@ -78,6 +78,15 @@ func (ex *Exec) VerifyFunc(ct *Contract) (res *FuncResult) {
 	vars := map[string]Val{}
 	var args []Val
 	for _, p := range fn.Params {
+		// a store handle handed in (prefix.Store): some prefix of some module store of some live context
+		if nt, ok := p.Type().(*types.Named); ok && nt.Obj().Pkg() != nil && nt.Obj().Pkg().Path() == "github.com/cosmos/cosmos-sdk/store/prefix" && nt.Obj().Name() == "Store" {
+			cell := st.Fresh("p_"+p.Name()+"_cell", SInt)
+			st.Assume(And(App(SBool, ">=", cell, IntLit(0)), App(SBool, "<", cell, T{S: "CELL0", Sort: SInt})))
+			vv := &ViewVal{Cell: cell, Store: st.Fresh("p_"+p.Name()+"_store", SInt), Prefix: st.Fresh("p_"+p.Name()+"_pfx", SBytes)}
+			args = append(args, vv)
+			vars[p.Name()] = vv
+			continue
+		}
 		v := st.FreshOf("p_"+p.Name(), p.Type())
 		if v.Sort == SCtx {
 			st.Assume(And(App(SBool, ">=", App(SInt, "ctx_cell", v), IntLit(0)), App(SBool, "<", App(SInt, "ctx_cell", v), T{S: "CELL0", Sort: SInt})))
